@@ -53,8 +53,8 @@ func findAppendLoops(fn *ssa.Function) []appendLoop {
 			if !ok {
 				break
 			}
-			if phi.Comment == "rangeindex" {
-				continue
+			if phi.Comment == "rangeindex" || ssa.Value(phi) == cmp.X {
+				continue // the induction variable (for i := 0; i < len(xs); i++ has it as a named phi)
 			}
 			isAcc := false
 			for _, e := range phi.Edges {
@@ -154,9 +154,32 @@ func rulesExtract(p *Prog, r *Report, eng *Engine) {
 		return
 	}
 	r.Funcs[p.shortKey(ext)] = true
+	// the stage that flattens and renders may be a helper that is handed the whole expansion and returns the
+	// strings (texts := licenseStrings(node.expand(true))): it is judged in the helper, with its parameter
+	// standing for the expansion
+	host := ext
+	var hostCall *ssa.Call
+	for _, b := range ext.Blocks {
+		for _, in := range b.Instrs {
+			c, ok := in.(*ssa.Call)
+			if !ok || c.Call.StaticCallee() == nil || !p.InModule(c.Call.StaticCallee()) || len(c.Call.StaticCallee().Blocks) == 0 || !isStringSlice(c.Type()) {
+				continue
+			}
+			h := c.Call.StaticCallee()
+			for i, a := range c.Call.Args {
+				if i < len(h.Params) && isNodeSlice(a.Type(), nodeType(p), 2) {
+					pv := qz.prov(a, 0)
+					if expandCollRe.MatchString(strings.Replace(pv, "param:expression", "param:testExpression", 1)) {
+						host, hostCall = h, c
+						qz.elemVar[h.Params[i]] = pv
+					}
+				}
+			}
+		}
+	}
 	// E1a: what is flattened
 	var flatCall *ssa.Call
-	for _, b := range ext.Blocks {
+	for _, b := range host.Blocks {
 		for _, in := range b.Instrs {
 			if c, ok := in.(*ssa.Call); ok {
 				if callee := c.Call.StaticCallee(); callee != nil && p.InModule(callee) {
@@ -174,7 +197,7 @@ func rulesExtract(p *Prog, r *Report, eng *Engine) {
 	nestedOK := false
 	if flatCall == nil {
 		// the flattening written in place: for _, alt := range expansion { for _, n := range alt { out = append(out, text(n)) } }
-		for _, al := range findAppendLoops(ext) {
+		for _, al := range findAppendLoops(host) {
 			ld, ok := al.Coll.(*ssa.UnOp)
 			if !ok || ld.Op != token.MUL {
 				continue
@@ -269,7 +292,7 @@ func rulesExtract(p *Prog, r *Report, eng *Engine) {
 	// E1c: one string per flattened node — in ExtractLicenses itself, or in a helper that is handed the
 	// flattened nodes and returns the strings
 	{
-		mapFn, mapColl := ext, ssa.Value(nil)
+		mapFn, mapColl := host, ssa.Value(nil)
 		if flatCall != nil {
 			mapColl = flatCall
 		}
@@ -408,7 +431,7 @@ func rulesExtract(p *Prog, r *Report, eng *Engine) {
 					}
 					continue
 				}
-				if dc, isCall := ret.Results[0].(*ssa.Call); isCall && dc.Call.StaticCallee() != nil && p.InModule(dc.Call.StaticCallee()) && len(dc.Call.Args) == 1 && isStringSlice(dc.Type()) && isStringSlice(dc.Call.Args[0].Type()) {
+				if dc, isCall := ret.Results[0].(*ssa.Call); isCall && dc.Call.StaticCallee() != nil && p.InModule(dc.Call.StaticCallee()) && len(dc.Call.Args) == 1 && isStringSlice(dc.Type()) && isStringSlice(dc.Call.Args[0].Type()) && (hostCall == nil || dc.Call.Args[0] == ssa.Value(hostCall)) {
 					// the de-duplication is whatever in-module ([]string) []string function the result goes through; E2 judges it
 					dedupFn = dc.Call.StaticCallee()
 					r.OK("E1", "ExtractLicenses|result", p.pos(ret.Pos()), "de-duplicated accumulator", "", false)
